@@ -43,6 +43,12 @@ def run(ctx: RuleContext):
     ctx.sub(check_modifier_loop, ctx)
     ctx.sub(check_legality_matrix, ctx)
     ctx.sub(check_whitespace, ctx)
+    # C14.6: "two multi-axis specifiers raise ValueError" also when one sits in the annotation being extended and one in the extension
+    # (`Shaped[Float[A, "... c"], "*b"]`): the nesting branch of C15.1 (identity tests against None -- position 0 is falsy --, the raise,
+    # the shift computed before the concatenation)
+    from .c15 import check_nesting
+
+    ctx.reuse("C14.6", check_nesting, ctx)
 
 
 def construction_functions(ctx):
